@@ -15,7 +15,7 @@ REAL = ['onl.scheduler.wfq.WFQ', 'onl.scheduler.virtual_clock.VC', 'onl.sim.reso
 STUBS = ['injector, taps, recording sink']
 ASSUMPTIONS = ['stamps closer than 1e-9 (relative) count as equal; on exactly equal stamps the earlier arrival must go first '
                'only if it arrived at a strictly earlier instant', 'same-instant leniency at service starts']
-PROBES = ['busy_period_ends_and_begins_in_one_instant', 'ge4_equal_stamps', 'virtual_time_reset', 'static_backlog', 'kind_WFQ', 'kind_VC', 'many_to_one_map', 'choice_among_classes']
+PROBES = ['compared_with_bare_twin', 'library_port_downstream', 'busy_period_ends_and_begins_in_one_instant', 'ge4_equal_stamps', 'virtual_time_reset', 'static_backlog', 'kind_WFQ', 'kind_VC', 'many_to_one_map', 'choice_among_classes']
 
 
 def gen(rng, tier):
@@ -77,6 +77,7 @@ def run(case):
             nt = True
             stats['choice_among_classes'] = 1
             break
+    viol += sched.twin_check(r, case, ID, stats)
     res = {'viol': viol, 'digest': digest_of(r.w.log), 'nontrivial': nt, 'stats': stats,
            'simtime': float(r.w.env.now), 'steps': r.w.steps}
     if case.get('_excerpt'):
